@@ -116,18 +116,11 @@ def check_limit_plumbing(rep, repo):
         return
     order = [e for e, c in iter_effects(effs)]
     stores = [e for e in order if e.kind == 'store' and e.target[0] == 'attr' and e.target[2] == 'time_limit']
-    runs = [e for e in order if e.kind in ('call', 'callo') and getattr(e.target, 'name', '') == 'run']
     ok_store = bool(stores) and all(e.value == lim for e in stores)
     rep.check(ok_store, rule, f.where, 'the time limit given to solve() is recorded on the model (get_results decides Timeout from it)',
               got=[show(e.value) for e in stores] or 'model.time_limit is never set', want='self.model.time_limit = %s' % ps[1], construct='time limit not recorded on the model')
-    if ok_store and runs:
-        first_run = min(order.index(e) for e in runs)
-        rep.check(order.index(stores[0]) < first_run, rule, f.where, 'the limit is recorded before the run starts', got='store after run',
-                  construct='time limit recorded after the run')
-    lp_runs = [e for e in runs if getattr(e.target, 'cls', '') == 'LP_Solver']
-    for e in lp_runs:
-        rep.check(len(e.args) >= 2 and e.args[1] == lim, rule, f.where, 'the same limit is handed to the MILP solver', got=[show(a) for a in e.args], want=ps[1] + ' as second argument',
-                  construct='time limit not passed to LP_Solver.run', loc=e.loc)
+    # (whether the same limit is also handed to the MILP back end, and whether the store precedes the run, is not part of
+    # the property: get_results reads model.time_limit after the run and decides Timeout from the elapsed time alone)
     conds = [c_ for e in stores for (c_, br) in [x for ee, ctx in iter_effects(effs) if ee is e for x in ctx] if c_.kind == 'if']
     rep.check(not conds, rule, f.where, 'the limit is recorded on every path (LP and brute force)', got=[show(c_.cond)[:60] for c_ in conds], construct='time limit recorded conditionally')
 
